@@ -91,6 +91,31 @@ func runPair(sc *PairScn) (res pairResult) {
 	}
 	a.App.Echo.Store(true)
 	b.App.Echo.Store(true)
+	// registry watcher: logs every change of the entry for the peer (identity, state, closed)
+	stopWatch := make(chan struct{})
+	defer close(stopWatch)
+	for _, pr := range [][2]*Node{{a, b}, {b, a}} {
+		nd, peer := pr[0], pr[1]
+		go func() {
+			last := ""
+			for {
+				select {
+				case <-stopWatch:
+					return
+				default:
+				}
+				cur := "none"
+				if e, ok := nd.H().VerifRegistry()[peer.SKI]; ok {
+					cur = fmt.Sprintf("%p state=%d closed=%v", e.Connection, e.State, e.Closed)
+				}
+				if cur != last {
+					nw.L.Add(nd.Name, "registry", peer.SKI, cur, 0)
+					last = cur
+				}
+				time.Sleep(time.Millisecond)
+			}
+		}()
+	}
 	if sc.OneSided {
 		nw.Bus.SetVisible(a, b, false) // A never sees B's announcement: only B can dial
 	}
